@@ -1108,12 +1108,12 @@ func Run(cfg vh.Config) (*vh.Result, error) {
 		}
 		nIn := cfg.Pick(12, 24)
 		g := &pgen{r: rn.rng}
-		for i := 0; i < cfg.Pick(600, 9000); i++ {
+		for i := 0; i < cfg.Pick(600, 6000); i++ {
 			p, kind := g.pattern(cfg.Thorough())
 			rn.process(p, nil, "grammar", kind, nIn, true)
 		}
 		// the on/off differential alone (no Coq terms) on many more patterns
-		for i := 0; i < cfg.Pick(1500, 30000); i++ {
+		for i := 0; i < cfg.Pick(1500, 24000); i++ {
 			p, kind := g.pattern(cfg.Thorough())
 			rn.process(p, nil, "grammar", kind, cfg.Pick(12, 40), false)
 		}
